@@ -137,5 +137,20 @@ example : run ⟨1, 5⟩ [.front, .back, .back, .front, .front, .front, .back] =
     ([(.front, some 1), (.back, some 4), (.back, some 3), (.front, some 2), (.front, none), (.front, none),
       (.back, none)], ⟨3, 3⟩) := by decide
 
+/-- **`Clone`**: the model's clone of an iterator is the same cursor, so continuing on a clone made after
+any calls `pre` yields exactly what the original would have yielded: the calls `pre ++ post` on one
+iterator are the calls `pre` on the original followed by `post` on the clone. -/
+theorem clone_continues (c : Cursor) (pre post : List End) :
+    run c (pre ++ post) = ((run c pre).1 ++ (run (run c pre).2 post).1, (run (run c pre).2 post).2) := by
+  induction pre generalizing c with
+  | nil => simp [run]
+  | cons e es ih => simp [run, ih]
+
+/-- the cursor the script's `iterc` op continues with is the one `run` ends in -/
+theorem fold_is_run (c : Cursor) (pre : List End) : pre.foldl (fun c e => (c.step e).2) c = (run c pre).2 := by
+  induction pre generalizing c with
+  | nil => rfl
+  | cons e es ih => simp [run, ih]
+
 end C14
 end AnyVec
